@@ -412,9 +412,17 @@ def _scalars(bp, res: Result, shard):
                     if label == "singular" and not negzero:
                         from ..values import canon
                         tree = canon(b, mi, tree)
-                    m = bpk.make(mi, tree)
-                    got = bytes(m)
                     ref = refk.make(mi, tree).SerializeToString()
+                    try:
+                        m = bpk.make(mi, tree)
+                        got = bytes(m)
+                    except Exception as e:
+                        res.counters["scalar_cases"] += 1
+                        res.violation("scalar-bytes", [fi.kind, label, "encode-raised:" + type(e).__name__],
+                                      f"{fi.kind} {label} value {v!r}: encoding raised {e!r}; reference {ref.hex()}",
+                                      {"kind": "scalar", "msg": mname, "number": fi.number, "label": label, "value": _enc(v),
+                                       "shard": {"kind": "scalars", "seed": shard["seed"], "n": shard["n"]}})
+                        continue
                     # independent expectation from the spec codec
                     pv = float("nan") if v == NAN else v
                     if label == "repeated":
